@@ -2262,6 +2262,7 @@ func c14ExtractConcatCode(repo string) (string, string, error) {
 	if err != nil {
 		return "", "", err
 	}
+	c14InlineHelpers(f, map[string]bool{"toSliceValue": true, "concatSliceValue": true, "concatMaps": true, "concatInterfaces": true, "ConcatItems": true})
 	specs := []c14Spec{
 		{name: "toSliceValue", paramType: "[]any", paramKind: c14kAnys, resKind: c14kSlice, errCode: "E_TYPE"},
 		{name: "concatSliceValue", paramType: "reflect.Value", paramKind: c14kSlice, resKind: c14kOpt, errCode: "E_MULTI"},
@@ -2315,6 +2316,8 @@ func c14ExtractConcatStream(repo string) (string, string, error) {
 	if err != nil {
 		return "", "", err
 	}
+	c14InlineHelpers(h, map[string]bool{"concatStreamReader": true})
+	c14InlineHelpers(g, map[string]bool{"ConcatMessageStream": true, "concatMessageArray": true, "concatToolCalls": true, "ConcatMessages": true})
 	se1, err := c14StreamEntry(h, "concatStreamReader", "T", "E_EMPTY", "internal.ConcatItems")
 	if err != nil {
 		return "", "", err
@@ -2349,6 +2352,7 @@ func c14ExtractConcatToolCalls(repo string) (string, string, error) {
 	if err != nil {
 		return "", "", err
 	}
+	c14InlineHelpers(g, map[string]bool{"ConcatMessageStream": true, "concatMessageArray": true, "concatToolCalls": true, "ConcatMessages": true})
 	tc, err := c14ToolCallSort(g)
 	if err != nil {
 		return "", "", err
